@@ -90,7 +90,11 @@ func (g *Rng) cut(b []byte) [][]byte {
 	if len(b) == 0 {
 		return nil
 	}
-	switch g.Intn(5) {
+	style := g.Intn(5)
+	if style == 1 && len(b) > 2000 && !g.Chance(1, 10) {
+		style = 3
+	}
+	switch style {
 	case 0: // one segment
 		return [][]byte{b}
 	case 1: // byte by byte
